@@ -187,8 +187,10 @@ pub fn run(line: &str) -> Obs {
                         // did push() borrow the anchored memory (0) or copy it (1)?
                         let last = *o.iov.verif_view().0.last().unwrap();
                         ret.push((last.0 + last.1 != end) as i128);
-                        o.iov.push_anchor(anchor);
                     }
+                    // as Decoder::decode_anchored / Encoder::encode_anchored do: the input's anchor is queued whatever
+                    // the input contributed (possibly nothing)
+                    o.iov.push_anchor(anchor);
                 }
                 "rp" => {
                     let b = o.iov.register_patch(&unhex(p[1]));
